@@ -39,7 +39,17 @@ def main():
     seed = int(os.environ.get("VERIF_SEED", "1"))
     mod = importlib.import_module("props." + a.pid)
     if a.replay:
-        sys.exit(mod.replay(json.load(open(a.replay))))
+        obj = json.load(open(a.replay))
+        rc = mod.replay(obj)
+        if rc == "rerun":
+            # generic replay: the case is regenerated deterministically from the recorded seed and tier
+            seed = int(obj.get("seed", seed))
+            ctx = core.Ctx(a.pid, obj.get("tier", "quick"), seed)
+            mod.run(ctx)
+            hit = [v for v in ctx.violations if v["signature"] == obj.get("signature")]
+            print("replay (seed %d): %s" % (seed, "violation reproduced: " + hit[0]["what"] if hit else "not reproduced"))
+            sys.exit(1 if hit else 0)
+        sys.exit(rc)
     ctx = core.Ctx(a.pid, a.tier, seed)
     try:
         mod.run(ctx)
